@@ -1,6 +1,6 @@
 From Coq Require Import List Arith NArith ZArith Bool.
 From SH Require Import base.Pool gen.Extracted_channel channel.Defs channel.Word channel.Model channel.Skeleton
-  channel.Inv channel.Progress channel.ModelRA channel.InvRA props.C08.
+  channel.Inv channel.Progress channel.ModelRA channel.InvRA channel.ProgressRA props.C08.
 Import ListNotations.
 Local Open Scope N_scope.
 Check C08_no_panic :
@@ -16,6 +16,12 @@ Check C08_bounded_solo :
   forall s' fs' es', run (s, fs) (solo_labels j cs) = ((s', fs'), es') ->
   exists f', nth_error fs' j = Some f' /\ fpc f' = PDone /\
              (forall i, i <> j -> nth_error fs' i = nth_error fs i).
+Check C08_bounded_solo_ra :
+  forall ls j f cs k,
+  let w := rrun rinit_world ls in
+  nth_error (snd w) j = Some f -> (nonzeros cs <= k)%nat -> (8 + 2 * k <= length cs)%nat ->
+  exists f', nth_error (snd (rrun w (rsolo j cs))) j = Some f' /\ rpcf f' = RDone /\
+             (forall i, i <> j -> nth_error (snd (rrun w (rsolo j cs))) i = nth_error (snd w) i).
 Check C08_step_progress :
   forall ls s fs es j f c s' f' es',
   run init_world ls = ((s, fs), es) -> nth_error fs j = Some f -> fstep s f c = (s', f', es') ->
@@ -23,4 +29,5 @@ Check C08_step_progress :
 Print Assumptions C08_no_panic.
 Print Assumptions C08_no_panic_ra.
 Print Assumptions C08_bounded_solo.
+Print Assumptions C08_bounded_solo_ra.
 Print Assumptions C08_step_progress.
